@@ -2,7 +2,6 @@
    Directives: only those of the two standard files below. *)
 From Coq Require Import ExtrOcamlBasic ExtrOcamlString.
 From PS.model Require Import Smt Enc Ind Prog Solution Export Gantt Driver SolverSM SolverInst.
-From PS.spec Require Import Spec.
-Definition report (ops : list op) := report_run spec_all ops.
+From PS.spec Require Import Spec Report.
 
 Extraction "extract/gen/model.ml" report solver_report solution_of default_cfg setup_report full_solution_of.
